@@ -3,7 +3,7 @@ file type with extension, path (directory), explicit output names, arrays and
 typed maps of files, structs containing files, nested combinations, null and
 missing files, symbolic links, strings that hold paths."""
 from mro import (call, const, pipeline, program, ref, self_, split, stage, struct, INST, FILE, FILES, FMAP, FSTR, FSTRUCT,
-                 FDIR, FMSTRUCT, FASTRUCT, FILES11, FMISSING, FLINK, FLINK2, FSM, FPLINK, FOUTSIDE, FMAPK, FILES2D)
+                 FDIR, FMSTRUCT, FASTRUCT, FILES11, FMISSING, FLINK, FLINK2, FSM, FPLINK, FOUTSIDE, FMAPK, FILES2D, FSO)
 
 FT = ("txt", "bam.bai")
 
@@ -37,6 +37,10 @@ def catalogue():
     P.append(one("po_links", [], "file l, file f, txt chain", {"l": FLINK, "f": FILE, "chain": FLINK2}))
     P.append(one("po_outside", [FS], "file o, txt t, file[] os, FS s, file inside",
                  {"o": FOUTSIDE, "t": FOUTSIDE, "os": const(None), "s": const(None), "inside": FILE}))
+    # a struct, an array of structs and a typed map of structs with one member inside the
+    # pipestance and one outside of it
+    FSOT = struct("FSO", "file f, file o")
+    P.append(one("po_struct_outside", [FSOT], "FSO s, file g", {"s": FSO, "g": FILE}))
     # files named by invocation arguments with paths relative to mrp's working directory, passed
     # through to the outputs (they lie outside the pipestance)
     q = program("po_relinput", [], [stage("P", "int x", "int n", {"n": const(1)})],
